@@ -1,17 +1,23 @@
 (* C08 correspondence: one recorded session of the implementation (inputs, injected faults, the
    eviction choices Go's map iteration made) is replayed on the model; every per-step observable must
    be equal.  Addresses are pool indices (N); index 0 is the empty string.  Not part of any theorem. *)
-From Hy Require Import lib.Harness model.C08_UDPPolicy.
+From Hy Require Import lib.Harness model.C08_UDPPolicy model.C08_Feed.
 From Coq Require Import NArith List Bool.
 Local Open Scope N_scope.
 
 Inductive hmode := HMOff | HMConst (a' : N) | HMMod (k a' : N) | HMErr.
 
-(* SD a code x ev d : datagram to a; code = kind(0 fwd,1 drop,2 dial failed) + 4*consulted + 8*fault
-                      + 16*evicted + 32*dialed ; x forwarded-to ; ev evicted key ; d dialed address
+(* SM pid fid cnt a code x ev d chk : client message (PacketID pid, FragID fid, FragCount cnt, Addr a);
+       code = kind (0 WriteTo called with x, 1 nothing written and the entry is still there, 2 nothing written and the
+              entry is gone: dial failed) + 4*CheckUDP consulted + 8*dial fault injected + 16*evicted + 32*dialed
+              + 64*write error injected + 128*the WriteTo that was called failed ;
+       x written-to ; ev evicted key ; d dialed address ; chk the address CheckUDP was consulted for
+   SD a code x ev d : the complete message (FragCount 1) for a; a consulted CheckUDP was consulted for a
    SR r code x      : socket read from r; code 1 = reply sent from x, 0 = nothing
    SC               : close *)
-Inductive stp := SD (a code x ev d : N) | SR (r code x : N) | SC.
+Inductive stp := SM (pid fid cnt a code x ev d chk : N) | SR (r code x : N) | SC.
+
+Definition SD (a code x ev d : N) := SM 0 0 1 a code x ev d a.
 
 (* short forms of the frequent steps (the cases files are parse-bound) *)
 Definition Fc (a : N) := SD a 0 a 0 0.   (* forwarded, verdict from the cache *)
@@ -20,6 +26,7 @@ Definition Dc (a : N) := SD a 1 0 0 0.   (* dropped, verdict from the cache *)
 Definition Dk (a : N) := SD a 5 0 0 0.   (* dropped, CheckUDP consulted, no eviction *)
 Definition Fe (a ev : N) := SD a 20 a ev 0.  (* forwarded, consulted, evicted ev *)
 Definition De (a ev : N) := SD a 21 0 ev 0.  (* dropped, consulted, evicted ev *)
+Definition Nf (pid fid cnt a : N) := SM pid fid cnt a 1 0 0 0 0.   (* fragment: nothing called *)
 
 Inductive case := CSess (bits : list N) (h : hmode) (steps : list stp).
 
@@ -37,33 +44,39 @@ Definition hook_of (h : hmode) (a : N) : hookres N :=
 Definition optN_eqb (a b : option N) : bool :=
   match a, b with Some x, Some y => x =? y | None, None => true | _, _ => false end.
 
-Definition obs_match (o : obs N) (code x ev d : N) : bool :=
-  let kind := code mod 4 in
-  (match o_out N o with
-   | OFwd _ y => (kind =? 0) && (y =? x)
-   | ODrop _ => kind =? 1
-   | ODialFail _ => kind =? 2
-   | _ => false
-   end) &&
-  Bool.eqb (o_consulted N o) (N.testbit code 2) &&
-  optN_eqb (o_evicted N o) (if N.testbit code 4 then Some ev else None) &&
-  optN_eqb (o_dialed N o) (if N.testbit code 5 then Some d else None).
+(* the implementation cannot show the address handed to checkAddr on a cache hit: compared when CheckUDP was consulted *)
+Definition chk_match (o : fobs N) (c chk : N) : bool := if fo_consulted N o then c =? chk else true.
 
-Fixpoint go (P : N -> bool) (hk : N -> hookres N) (st : state N) (l : list stp) : bool :=
+Definition obs_match (o : fobs N) (code x ev d chk : N) : bool :=
+  let kind := code mod 4 in
+  (match fo_out N o with
+   | FWrite _ c y ok =>
+       (kind =? 0) && (y =? x) && Bool.eqb ok (negb (N.testbit code 7)) &&
+       match c with Some c' => chk_match o c' chk | None => true end
+   | FDrop _ c => (kind =? 1) && chk_match o c chk
+   | FNone _ => kind =? 1          (* only for a fragment that completes nothing: the model never says FNone for FragCount <= 1 *)
+   | FDialFail _ => kind =? 2
+   | FRep _ _ => false
+   end) &&
+  Bool.eqb (fo_consulted N o) (N.testbit code 2) &&
+  optN_eqb (fo_evicted N o) (if N.testbit code 4 then Some ev else None) &&
+  optN_eqb (fo_dialed N o) (if N.testbit code 5 then Some d else None).
+
+Fixpoint go (P : N -> bool) (hk : N -> hookres N) (st : fstate N) (l : list stp) : bool :=
   match l with
   | [] => true
-  | SD a code x ev d :: t =>
-      let (st1, o) := step N N.eqb 0 P hk st (IDgram N a (N.testbit code 3) ev) in
-      obs_match o code x ev d && go P hk st1 t
+  | SM pid fid cnt a code x ev d chk :: t =>
+      let (st1, o) := fstep N N.eqb 0 P hk st (FMsg N (mkU N pid fid cnt a) (N.testbit code 3) ev (N.testbit code 6)) in
+      obs_match o code x ev d chk && go P hk st1 t
   | SR r code x :: t =>
-      let (st1, o) := step N N.eqb 0 P hk st (IReply N r) in
-      (match o_out N o with
-       | OReply _ y => (code =? 1) && (y =? x)
-       | ONone _ => code =? 0
+      let (st1, o) := fstep N N.eqb 0 P hk st (FReply N r) in
+      (match fo_out N o with
+       | FRep _ y => (code =? 1) && (y =? x)
+       | FNone _ => code =? 0
        | _ => false
        end) && go P hk st1 t
   | SC :: t =>
-      let (st1, _) := step N N.eqb 0 P hk st (IClose N) in go P hk st1 t
+      let (st1, _) := fstep N N.eqb 0 P hk st (FClose N) in go P hk st1 t
   end.
 
 Definition check (c : case) : bool :=
